@@ -22,6 +22,7 @@ import (
 	"k8s.io/apimachinery/pkg/api/resource"
 	metav1 "k8s.io/apimachinery/pkg/apis/meta/v1"
 	"k8s.io/apimachinery/pkg/types"
+	"k8s.io/client-go/tools/cache"
 	fwktype "k8s.io/kube-scheduler/framework"
 	"k8s.io/kubernetes/pkg/scheduler/framework"
 	"k8s.io/utils/ptr"
@@ -116,6 +117,7 @@ func TestVerifC06PluginHistory(t *testing.T) {
 		// class counters
 		var nCycleOK, nCycleRefused, nDesignatedOK, nDesignatedConflict, nRsv, nMatchedUnmatched, nFromRsv, nBoundary, nBind, nUnreserve int
 		var nStatusUpdate, nHealed, nAddNoTopo, nAddExisting, nFlap, nNUMAAlloc int
+		var nTombstone int
 
 		capOf := func(rn corev1.ResourceName) int64 {
 			if rn == corev1.ResourceCPU {
@@ -763,16 +765,25 @@ func TestVerifC06PluginHistory(t *testing.T) {
 				if !un {
 					p = live[uid]
 				}
+				how := ""
 				if !p.isRsv && rapid.Bool().Draw(t, "terminatedUpdate") {
 					upd := p.obj.DeepCopy()
 					upd.Status.Phase = corev1.PodSucceeded
 					handler.OnUpdate(p.obj, upd)
+				} else if rapid.Bool().Draw(t, "tombstone") {
+					// the informer missed the delete (watch dropped, re-list): client-go delivers a tombstone VALUE
+					handler.OnDelete(cache.DeletedFinalStateUnknown{Key: "default/" + p.obj.Name, Obj: p.obj})
+					nTombstone++
+					how = " (DeletedFinalStateUnknown)"
 				} else {
 					handler.OnDelete(p.obj)
 				}
 				delete(live, uid)
 				delete(unrecorded, uid)
-				hist = append(hist, fmt.Sprintf("podDelete %s", uid))
+				hist = append(hist, fmt.Sprintf("podDelete %s%s", uid, how))
+				if _, still := rm.GetNodeAllocation(c06pNode).allocatedPods[uid]; still {
+					dead = c.Violation(t, "plugin:deleted-pod-still-recorded", "%s was deleted%s but is still in the ledger; history=%v", uid, how, hist)
+				}
 			},
 			"topologyRemoved": func(t *rapid.T) {
 				if dead {
@@ -822,6 +833,7 @@ func TestVerifC06PluginHistory(t *testing.T) {
 		c.ClassIf(nAddNoTopo > 0, "pod-event-dropped-without-topology")
 		c.ClassIf(nHealed > 0, "dropped-pod-recorded-by-later-status-update")
 		c.ClassIf(nFlap > 0, "topology-removed")
+		c.ClassIf(nTombstone > 0, "pod-delete-delivered-as-tombstone")
 		if len(hist) >= 3 && (nDesignatedOK > 0 || nHealed > 0 || nMatchedUnmatched > 0 || nBind > 0) {
 			c.NonTrivial(hist)
 		}
